@@ -1,5 +1,6 @@
 import PsyVerif.Model.MiniFIO
 import PsyVerif.Model.OMP
+import PsyVerif.Model.OMPPairs
 open Proto MiniF C09
 
 /-- all permutations of a list -/
@@ -74,7 +75,8 @@ def exposedVar (P : ParDo) (σ : Store) : Int :=
 def b01 (b : Bool) : String := if b then "1" else "0"
 
 /-- `(omp <loop> (<priv ids>) (<firstprivate ids>) (<bindings>) (<queries>))` →
-`((p..) (f..) (s..) trips indep uncond conflictVar exposedVar (serial values) verdict staticIndep staticUncond)`:
+`((p..) (f..) (s..) trips indep uncond conflictVar exposedVar (serial values) verdict staticIndep staticUncond
+inPairFragment validateModel pairsIndep)`:
 the model's inferred clause sets, then the behaviour of the loop under the GIVEN clause lists. -/
 def handle (s : Sexp) : String :=
   match s with
@@ -90,13 +92,16 @@ def handle (s : Sexp) : String :=
         ++ " " ++ toString (P.trips σ) ++ " " ++ b01 (iterIndepB P σ) ++ " " ++ b01 (scalarsUncondB P σ)
         ++ " " ++ toString (conflictVar P σ) ++ " " ++ toString (exposedVar P σ)
         ++ " " ++ showList (fun l => toString (ser l)) q ++ " " ++ search P σ ser q
-        ++ " " ++ b01 (staticIndepB P) ++ " " ++ b01 (staticUncondB P) ++ ")"
+        ++ " " ++ b01 (staticIndepB P) ++ " " ++ b01 (staticUncondB P)
+        ++ " " ++ b01 (inPairFragment P) ++ " " ++ b01 (validateModel v lo hi st b) ++ " " ++ b01 (pairsIndepB P) ++ ")"
     | _ => "bad-loop"
   | .list [.atom "sharing", p] =>
     match parseStmt p with
     | some (.loop v lo hi st b) =>
       let sh := inferSharing (.loop v lo hi st b)
-      "(" ++ showList toString sh.priv ++ " " ++ showList toString sh.fpriv ++ " " ++ showList toString sh.sync ++ ")"
+      let P : ParDo := ⟨v, lo, hi, st, b, sh.priv, sh.fpriv⟩
+      "(" ++ showList toString sh.priv ++ " " ++ showList toString sh.fpriv ++ " " ++ showList toString sh.sync
+        ++ " " ++ b01 (inPairFragment P) ++ " " ++ b01 (validateModel v lo hi st b) ++ ")"
     | _ => "bad-loop"
   | _ => "bad-op"
 
